@@ -343,7 +343,7 @@ void do_approx(Ctx<W> &x, const std::string &variant, std::size_t k) {
 #ifdef PARMCB_VERIF
     parmcb::verif::search_hook() = nullptr;
     parmcb::verif::candidates_hook() = nullptr;
-    if (variant == "signed")
+    if (variant == "signed" || variant == "signed_tbb")
         for (auto &ev : events) {
             std::cout << "hs " << ev.phase << " " << (ev.hidden_branch ? 1 : 0) << " " << ev.source << " ";
             if (ev.use_limit) std::cout << x.scaled((W) ev.limit); else std::cout << "-";
@@ -353,7 +353,7 @@ void do_approx(Ctx<W> &x, const std::string &variant, std::size_t k) {
             for (auto h : ev.hidden) std::cout << " " << h;
             std::cout << "\n";
         }
-    if (variant == "fvs" || variant == "iso") {
+    if (variant == "fvs" || variant == "iso" || variant == "fvs_tbb" || variant == "iso_tbb") {
         for (auto &ev : cand_events)
             std::cout << "sc " << ev.tree << " " << ev.source << " " << ev.edge << " " << x.scaled((W) ev.weight) << "\n";
         std::cout << "nsc " << cand_events.size() << "\n";
